@@ -753,6 +753,7 @@ func checkC12(c *Check) {
 	c.Rule("R20", "every queue instance has a spool directory of its own: the default location is built from the instance name (C10.R7) – a shared directory is read by every instance after a restart and each message is dispatched once per instance", 1)
 	importRules(c, "C10", c10Location, map[string]bool{"R7": true}, "R20")
 	c12SemaphoreHasRoom(c, "R21")
+	c12AttemptsCountedOut(c, "R22")
 
 	c.Rule("R5", "the panic handler of an attempt renames the metadata (quarantine) and never removes spool files", 1)
 	c.Rule("R6", "the synchronous part of the dispatch callback (it runs on the scheduler goroutine) performs no blocking operation", 1)
